@@ -229,13 +229,76 @@ func (a *freshAn) fieldStoresFresh(al *ssa.Alloc, field int) bool {
 				continue
 			}
 			for _, r2 := range *r.Referrers() {
-				if st, ok := r2.(*ssa.Store); ok && st.Addr == r && !a.fresh(st.Val) {
+				if st, ok := r2.(*ssa.Store); ok && st.Addr == r && !a.fresh(st.Val) && !a.freshUnlessShort(st.Val) {
 					return false
 				}
 			}
 		}
 	}
 	return true
+}
+
+// freshUnlessShort: v merges fresh memory with a slice that is not, and the slice that is not comes only along edges on
+// which it is known to have fewer than two elements. A permutation of fewer than two elements writes nothing, so for
+// the in-place sorts (whose methods only exchange elements) such a value is as good as fresh.
+func (a *freshAn) freshUnlessShort(v ssa.Value) bool {
+	phi, ok := v.(*ssa.Phi)
+	if !ok {
+		return false
+	}
+	if _, isSlice := phi.Type().Underlying().(*types.Slice); !isSlice {
+		return false
+	}
+	for i, e := range phi.Edges {
+		if a.fresh(e) {
+			continue
+		}
+		if !edgeSaysShort(phi.Block().Preds[i], phi.Block(), e) {
+			return false
+		}
+	}
+	return true
+}
+
+// edgeSaysShort: control reaches block `to` from p only when len(v) < 2.
+func edgeSaysShort(p, to *ssa.BasicBlock, v ssa.Value) bool {
+	short := func(op token.Token, x, y ssa.Value) bool {
+		// len(v) op const
+		c, ok := x.(*ssa.Call)
+		k, isC := y.(*ssa.Const)
+		if !ok || !isC || builtinName(&c.Call) != "len" || !sameValue(c.Call.Args[0], v) || k.Value == nil {
+			return false
+		}
+		n := k.Int64()
+		switch op {
+		case token.LSS:
+			return n <= 2
+		case token.LEQ:
+			return n <= 1
+		case token.EQL:
+			return n == 0 || n == 1
+		}
+		return false
+	}
+	for si, sc := range p.Succs {
+		if sc != to {
+			continue
+		}
+		c, truth, ok := edgeCond(p, si)
+		if !ok {
+			continue
+		}
+		f := condFact{Cond: c, Truth: truth}
+		if op, x, y, ok := f.rel(); ok && (short(op, x, y) || short(flipOp(op), y, x)) {
+			return true
+		}
+	}
+	for _, f := range blockFacts(p) {
+		if op, x, y, ok := f.rel(); ok && (short(op, x, y) || short(flipOp(op), y, x)) {
+			return true
+		}
+	}
+	return false
 }
 
 // structFieldFresh: v is a struct value whose given field holds memory allocated during the call that produced the
